@@ -30,7 +30,7 @@ func init() {
 	register("C20", "histories of API calls (constructors, accessors, operation methods, marks, ValueSet/PathSet/Path/Walk) interleaved with caller mutations of every Go object passed in or handed back; "+
 		"scripted aliasing scenarios (every accessor/constructor x mutation of its result/argument) + random histories; valid calls outside the model's fragment are executed and judged by (S) only (tags outside-model:*); "+
 		"goroutines: 2-4 REAL goroutines run a history each over a shared state (read-only API on shared data, mutation of their own), diffed against the driver's arena/one-heap interleaving semantics (op heap.conc) and against their own sequential results; "+
-		"S-only scenarios for API outside the model (tags d1:*); purity repeats; -race worker with 2-16 goroutines (quick: 2 short runs when the race build is cached; thorough: 15 long runs) "+
+		"S-only scenarios for API outside the model (tags d1:*); Set.Values / ValueSet.Values / AsValueSlice of a set / PathSet.List / convert.Unify(tuples, lists) / UnmarkDeepWithPaths / PathSet.Union / PathSet.Subtract inside the ordinary histories, diffed against the driver op heapx.run incl. len/cap/backing-array identity (steps x*, tag d2:*); purity repeats; -race worker with 2-16 goroutines (quick: 2 short runs when the race build is cached; thorough: 15 long runs) "+
 		"(the -race runs SUPPORT the model's write sets — API calls write only what they allocate — under the schedules that occurred; they are not a proof of race freedom, and the Go memory model is not modelled). "+
 		"non-trivial = history (goroutine programs included) of >= 4 steps with >= 1 caller mutation; distinct = distinct canonical history strings; purity / derived / d1 evaluations are counted as evaluations only", runC20)
 }
